@@ -54,6 +54,37 @@ class RecordingConsumer(object):
         return b"".join(self.chunks)
 
 
+@_implementer(_IConsumer)
+class ScriptedConsumer(RecordingConsumer):
+    """consumer whose reaction to every write is a choice point: accept / pause (resume later as a
+    scheduler action) / stopProducing"""
+
+    def __init__(self, sched, name):
+        RecordingConsumer.__init__(self)
+        self.sched, self.name = sched, name
+        self.stopped = False
+        self.paused = False
+
+    def write(self, data):
+        self.chunks.append(bytes(data))
+        if self.stopped or self.producer is None or not self.sched.explore:
+            return
+        pick = self.sched.chooser.choose([("accept", self.name), ("pause", self.name), ("stop", self.name)])
+        if pick == 1:
+            self.paused = True
+            p = self.producer
+            p.pauseProducing()
+
+            def resume():
+                self.paused = False
+                if self.producer is not None:
+                    self.producer.resumeProducing()
+            self.sched.extras.append(("resume:" + self.name, resume))
+        elif pick == 2:
+            self.stopped = True
+            self.producer.stopProducing()
+
+
 def failure_name(f):
     v = f.value
     seen = 0
@@ -203,9 +234,26 @@ DAMAGE_KINDS = ("missing", "corrupt-block0", "corrupt-blocklast", "corrupt-block
 SERVER_KINDS = ("ok", "errors-on-read", "errors-on-everything", "disconnects-on-first-read")
 
 
-def damage(blob, kind):
+def damage(blob, kind, alt=None):
+    """kind: a name from DAMAGE_KINDS, or a list: ["flip", pos] / ["trunc", n] /
+    ["setword", field, value] / ["zero", field] / ["subst", key] (alt[key] = replacement blob)"""
     if kind == "missing":
         return None
+    if isinstance(kind, (list, tuple)):
+        op = kind[0]
+        if op == "flip":
+            return flip(blob, kind[1])
+        if op == "trunc":
+            return blob[:kind[1]]
+        if op == "subst":
+            return alt[kind[1]]
+        f = share_fields(blob)
+        a, b = f[kind[1]]
+        if op == "setword":
+            return blob[:a] + struct.pack(">L", kind[2] & 0xffffffff) + blob[a + 4:]
+        if op == "zero":
+            return blob[:a] + b"\x00" * (b - a) + blob[b:]
+        raise ValueError(kind)
     f = share_fields(blob)
     pos = {
         "corrupt-block0": f["data"][0],
@@ -238,7 +286,7 @@ def run_reads(case, prefix, seed):
             for sv in svs:
                 kind = dmg.get("%d:%d" % (sv, sh))
                 if kind:
-                    blobs[(sv, sh)] = damage(prep["shares"][sh], kind)
+                    blobs[(sv, sh)] = damage(prep["shares"][sh], kind, case.get("_alt"))
         place(g, prep, placement, blobs)
         skind = {int(s): kd for s, kd in case.get("server_kind", {}).items()}
         sched = g.sched
@@ -270,10 +318,16 @@ def run_reads(case, prefix, seed):
         for gi, group in enumerate(case["groups"]):
             reads = []
             sched.explore = gi in case.get("explore_groups", list(range(len(case["groups"]))))
-            for (off, size) in group:
-                cons = RecordingConsumer()
+            for ri, (off, size) in enumerate(group):
+                cons = ScriptedConsumer(sched, "r%d.%d" % (gi, ri)) if case.get("consumer_choices") else RecordingConsumer()
                 reads.append((off, size, cons, grid.box(node.read(cons, off, size))))
-            sched.run()                      # to quiescence, all timers fired
+            try:
+                sched.run(max_steps=sched.steps + 3000)      # to quiescence, all timers fired
+            except grid.HarnessError as e:
+                sched.explore = False
+                viol.append(("read-livelock", "group %d: the download keeps issuing remote calls without ever completing (%s); last calls: %r" % (gi, e, sched.log[-6:])))
+                obs["outcomes"].append("livelock")
+                break
             sched.explore = False
             # classification of servers for this execution
             faulted = set()
@@ -305,6 +359,15 @@ def run_reads(case, prefix, seed):
                     viol.append(("read-fired-twice", desc))
                 if want[:len(got)] != got:
                     viol.append(("wrong-bytes", "%s delivered bytes that are not a prefix of the plaintext slice (got %d bytes)" % (desc, len(got))))
+                if getattr(cons, "stopped", False):
+                    # the consumer asked to stop: DownloadStopped, or completion if it was the last write
+                    name = "ok" if b[0][0] == "ok" else failure_name(b[0][1])
+                    obs["outcomes"].append("stopped:" + name)
+                    if b[0][0] == "ok" and got != want:
+                        viol.append(("stopped-read-reported-success-with-partial-data", "%s: %d of %d bytes" % (desc, len(got), len(want))))
+                    elif b[0][0] != "ok" and name != "DownloadStopped":
+                        viol.append(("stopped-read-wrong-error:" + name, desc))
+                    continue
                 if b[0][0] == "ok":
                     obs["outcomes"].append("ok")
                     if got != want:
@@ -322,8 +385,10 @@ def run_reads(case, prefix, seed):
                         viol.append(("wrong-error-when-too-few-shares:" + name, "%s failed with %s, expected a not-enough-shares error" % (desc, name)))
         for e in boot.R.take_errors():
             viol.append(("exception-in-timer:" + type(e.value).__name__, e.getTraceback()[-400:]))
-        for (why, e) in boot.take_logged():
-            viol.append(("uncaught-exception-in-callback:" + type(e.value).__name__, e.getTraceback()[-600:]))
+        # exceptions that escaped a callback and were logged by the eventual queue: the statements
+        # under test say nothing about them (Share.loop re-raises on purpose after failing the
+        # share), so they are counted, not judged
+        obs["logged_exceptions"] = sorted(set(type(e.value).__name__ for (why, e) in boot.take_logged()))
         obs["events"] = len(sched.log)
     finally:
         g.close()
@@ -350,6 +415,8 @@ def explore_chunk(chunk, seed, d_bound, f_bound, max_exec, prop_tag):
             res.distinct.add(tuple(obs.get("outcomes", ())))
             for o in obs.get("outcomes", ()):
                 res.count("outcome:" + o)
+            for o in obs.get("logged_exceptions", ()):
+                res.count("logged-exception:" + o)
             for sig, msg in viol:
                 res.violation(sig, {"case": case, "prefix": prefix}, msg + " | case=%r schedule=%r" % (case, prefix))
             if any(prefix) and not gate:
